@@ -226,6 +226,7 @@ class World:
         self.task_owner: dict[str, str | None] = {}
         self.spawned_by_disposable: set[str] = set()
         self.prepared: dict[str, Any] = {}
+        self.metric_objects: dict[int, Any] = {}
         self.exit_snapshot: dict[str, dict[str, bool]] = {}  # block -> {task spawned into it: done() at the instant the block was left}
         self.capture = LogCapture()
         self.uid = 10_000
@@ -442,6 +443,12 @@ async def run_steps(W: World, steps: list[dict[str, Any]], rng: random.Random | 
                 await asyncio.get_running_loop().create_future()
             except asyncio.CancelledError:
                 W.event("forever-cancelled", step.get("tag"))
+                if step.get("on_cancel"):
+                    # cleanup code of a cancelled task (e.g. a fire-and-forget ctx.spawn from an `except CancelledError:` block)
+                    try:
+                        await run_steps(W, step["on_cancel"], rng)
+                    except BaseException as exc:  # noqa: BLE001
+                        W.event("on-cancel-failed", step.get("tag"), type(exc).__name__)
                 raise
         elif op == "mark":
             W.event("mark", step.get("tag"))
@@ -470,7 +477,11 @@ async def run_steps(W: World, steps: list[dict[str, Any]], rng: random.Random | 
         elif op == "record":
             from hv.gen import metricsfam
 
-            m = metricsfam.make(step["type"], step["id"])
+            # `obj` names the metric object: two records with the same `obj` record the very same instance twice
+            okey = step.get("obj", step["id"])
+            m = W.metric_objects.get(okey)
+            if m is None:
+                m = W.metric_objects[okey] = metricsfam.make(step["type"], okey)
             fn = metricsfam.merge_fn(step.get("merge", "default"))
             W.event("record", step["id"], step["type"], step.get("merge", "default"))
             try:
